@@ -32,8 +32,19 @@ def _one(args):
     shutil.rmtree(work, ignore_errors=True)
     keys = [l.strip() for l in c.stdout.splitlines() if " | " in l and "] " in l]
     rules = sorted({l.split("] ")[1].split(" | ")[0] for l in keys})
+    known_miss = None
+    if "/seeded/" in diff:
+        try:
+            import json
+            known_miss = json.load(open(os.path.join(os.path.dirname(diff), "meta.json"))).get("known_undetected")
+        except (OSError, ValueError):
+            known_miss = None
     if benign:
         good = c.returncode == 0
+    elif known_miss:
+        # a documented limit of the analysis (DESIGN §12): must at least not be reported as passing silently *with* a
+        # violation of something else; recorded separately, never counted as detected
+        return {"mutant": name, "status": "known-miss", "benign": False, "expect": None, "exit": c.returncode, "fired": rules, "why": known_miss}
     else:
         good = c.returncode == 1 and (expect in (None, "None") or any(x == expect or x.startswith(expect) for x in rules))
     return {"mutant": name, "status": "ok" if good else "FAIL", "benign": benign, "expect": expect, "exit": c.returncode, "fired": rules}
@@ -74,7 +85,7 @@ def run(prop):
             res = list(ex.map(_one, [(prop, d, tmp, i) for i, d in enumerate(diffs)]))
     finally:
         shutil.rmtree(tmp, ignore_errors=True)
-    faults = [r for r in res if r["status"] != "skipped" and not r.get("benign")]
+    faults = [r for r in res if r["status"] not in ("skipped", "known-miss") and not r.get("benign")]
     benign = [r for r in res if r["status"] != "skipped" and r.get("benign")]
     return {
         "mutants": len(diffs),
@@ -83,6 +94,7 @@ def run(prop):
         "benign": len(benign),
         "benign_silent": sum(1 for r in benign if r["status"] == "ok"),
         "skipped": [r["mutant"] for r in res if r["status"] == "skipped"],
+        "known_undetected": [{"mutant": r["mutant"], "exit": r["exit"], "why": r.get("why")} for r in res if r["status"] == "known-miss"],
         "failures": ["%s expect=%s exit=%s fired=%s" % (r["mutant"], r.get("expect"), r.get("exit"), r.get("fired")) for r in res if r["status"] == "FAIL"],
         "results": res,
     }
